@@ -36,6 +36,18 @@ def run(rep):
                 "outcome are compared with the model; distinct = (configuration, call sequence)" % (8 if q else 12, 4 if q else 8))
     rep.assumptions = ["a 'corrupt' result is a truncated pickle made by the environment; partial files made by growers are the subject of C10/C11",
                        "a failing function raises ValueError on chosen settings, read from a side file so that it can be repaired without re-sowing"]
+    # liveness: grow_missing (after correcting and re-sowing a failing function) eventually makes the crop ready
+    from .. import tlc
+    live_cfgs = [crop.mk([3], bmode="count", bval=2, failing=[2]), crop.mk([2, 2], bmode="size", bval=3, failing=[1, 4]),
+                 crop.mk([], nca=1, cases=[[2], [1], [3]], kind="cases", bmode="none", failing=[])]
+    consts = dict(Configs=tlc.Raw("{" + ", ".join(crop.cfg_tla(c) for c in live_cfgs) + "}"), MaxPerm=3, MaxSteps=1, Record=False,
+                  Acts={"grow", "grow_missing", "fix_fn", "resow", "reload"}, SowCasesShuffle="ctor", PlaceholderLen="actual",
+                  SamplerCleanup="deferred")
+    lr = tlc.run_mc("Crop", consts, "SPECIFICATION LiveSpec\nPROPERTY EventuallyReady\nPROPERTY ReadyIsStable\nCHECK_DEADLOCK FALSE\n",
+                    name="MC_C08_live", workers=4)
+    rep.add_tlc("Crop liveness (EventuallyReady under fairness)", lr)
+    if lr.violated:
+        raise tlc.TLCError("Crop.tla: liveness %s violated" % lr.violated)
     acts = ["resow", "grow", "grow_set", "grow_missing", "fix_fn", "delete", "corrupt", "check_bad", "reload"]
     allc = configs(rep.tier)
 
